@@ -17,10 +17,13 @@ def sh(cmd, cwd=None, timeout=None):
 
 
 def sync():
-    # bring the sandbox up to date with /repo HEAD and /verif main
+    # bring the sandbox up to date with /repo HEAD and /verif main (hard reset; then re-apply the
+    # only local modification: harness path dependencies point at /mut/repo instead of /repo)
     head = sh("git -C /repo rev-parse HEAD")[1].strip()
-    sh(f"git -C {MREPO} checkout -q --detach {head}")
-    sh(f"git -C {MVERIF} stash -q; git -C {MVERIF} merge -q main -m sync; git -C {MVERIF} stash pop -q")
+    sh(f"git -C {MREPO} checkout -q -f --detach {head}")
+    sh(f"git -C {MVERIF} merge --abort; git -C {MVERIF} reset -q --hard; git -C {MVERIF} stash clear; git -C {MVERIF} reset -q --hard main")
+    sh(f"sed -i 's|\"/repo/|\"{MREPO}/|g' {MVERIF}/harness/*/Cargo.toml")
+    sh(f"cp {MREPO}/Cargo.lock {MVERIF}/harness/Cargo.lock")
     sh("python3 tools/gen_registry.py", cwd=MVERIF)
 
 
